@@ -609,3 +609,44 @@ Theorem oracle_accepts_model_env fuel e a b marker uv c mode ld period now tok :
   start_ok marker uv c m period now tok (token_created r) (fs_changed r)
            (spawned_env fuel e a b marker uv c mode ld period now tok) = true.
 Proof. cbn zeta. unfold program_run_env, spawned_env. apply oracle_accepts_model_e. Qed.
+
+(* ------------------------------------------------------ the mode file *)
+
+(* every hand-written spelling of "off" (trailing newline or CRLF, surrounding
+   blanks, with or without a date) reads as "off" *)
+Lemma off_spellings_read_off : forallb (fun d => beq (mode_of_bytes d) lit_off) off_spellings = true.
+Proof. vm_compute. reflexivity. Qed.
+
+Theorem off_spelling_is_off d : In d off_spellings -> mode_of_bytes d = lit_off.
+Proof.
+  intros Hin. apply beq_eq.
+  exact (proj1 (forallb_forall _ _) off_spellings_read_off d Hin).
+Qed.
+
+(* a mode file that reads as "off": nothing started (any marker, entry point,
+   flags, depth), the application only reads the mode, nobody but an existing
+   sidecar writes *)
+Theorem off_file_inert fuel e a b marker uv c d ld period now tok : mode_of_bytes d = lit_off ->
+  spawned_file fuel e a b marker uv c (Some d) ld period now tok = [] /\
+  program_run_file e a b [] uv c (Some d) ld period now tok = mkR OReturned [EReadMode] tok /\
+  (marker <> lit_1 ->
+   forall x, In x (r_effects (program_run_file e a b marker uv c (Some d) ld period now tok)) ->
+     is_write x = false /\ is_exec x = false).
+Proof.
+  intros M. unfold spawned_file, program_run_file, spawned_env, program_run_env. cbn [mode_of_file]. rewrite M.
+  assert (E : effective_mode (dir_known a b) lit_off = lit_off) by (unfold effective_mode; destruct (dir_known a b); reflexivity).
+  rewrite E. split; [rewrite spawned_e_eq; apply off_inert_no_launch|].
+  split; [rewrite program_run_eq; reflexivity|].
+  intros NM. rewrite program_run_eq. apply off_inert_effects. exact NM.
+Qed.
+
+(* a missing or unreadable mode file is "local": telemetry is not off *)
+Lemma absent_file_is_local : mode_of_file None = lit_local /\ lit_local <> lit_off.
+Proof. split; [reflexivity | discriminate]. Qed.
+
+Theorem oracle_accepts_model_file fuel e a b marker uv c file ld period now tok :
+  let m := effective_mode (dir_known a b) (mode_of_file file) in
+  let r := program_run_file e a b marker uv c file ld period now tok in
+  start_ok marker uv c m period now tok (token_created r) (fs_changed r)
+           (spawned_file fuel e a b marker uv c file ld period now tok) = true.
+Proof. cbn zeta. unfold program_run_file, spawned_file. apply oracle_accepts_model_env. Qed.
